@@ -39,10 +39,12 @@ theorem processLine_setTB (cfg : Cfg) (t : Nat) (bf : Option Bytes) (p : Parser)
     · split
       · split
         · rfl
-        · simp only [setLineAttributes]
-          have hti : (setTB t bf p).isTunnel = p.isTunnel := rfl
-          rw [hti]
-          split <;> rfl
+        · split
+          · rfl
+          · simp only [setLineAttributes]
+            have hti : (setTB t bf p).isTunnel = p.isTunnel := rfl
+            rw [hti]
+            split <;> rfl
       · rfl
     · split <;> rfl
 
